@@ -30,6 +30,9 @@ FILT_TOL = 1e-9        # model vs implementation for recursive filters (relative
 # wav playback is float32 arithmetic in the library (int16 -> unit range, normalisation, *= sf: at most ~6 float32
 # roundings of 6e-8 each, plus the float32 mean inside util.rms) against float64 in the model: worst 1.8e-7 -> 1e-6
 # (the same figure as the float32 level-linearity tolerance below); Cos2Envelope x tone: bit-identical -> tone's 1e-12.
+# chirp from its window samples: the model adds w**2 in list order, np.sum pairwise, and the phase is a cumulative sum of a
+# cumulative sum over up to 25 000 samples: worst 2.8e-11 of full scale over 4 seeds x 300 cases (median 0: boxcar) -> 1e-9.
+CHIRP_TOL = 1e-9
 BLCLICK_TOL = 1e-10
 WAV_TOL = 1e-6
 
@@ -487,6 +490,9 @@ class C08(FloatSpec):
             proto = stim.chirp(fs, c['f0'], c['f1'], c['n'] / fs, 1.0, calibration=None, window=c['window'])
             sf = float(np.asarray(cal.get_mean_sf(c['f0'], c['f1'], L)))
             out.append(f"scaled {f2b(1.0)} {f2b(sf)} {fl(proto)}")
+            # the chirp itself from the window samples (cumulative sums, phase, normalisation are the model's)
+            from scipy import signal
+            out.append(f"chirp {f2b(fs)} {f2b(c['f0'])} {f2b(c['f1'])} {f2b(sf)} {fl(signal.get_window(c['window'], len(proto)))}")
         elif k in ('bbn', 'notch', 'bln', 'fir', 'shaped'):
             out.append(self.filt_line(c, cal, pol))
         elif k == 'ramped':
@@ -604,6 +610,7 @@ class C08(FloatSpec):
             R.append(vals(w, 1e-12))
         elif k == 'chirp':
             R.append(vals(w, 1e-12, 1e-12 * full))
+            R.append(vals(w, CHIRP_TOL, CHIRP_TOL * full))
         else:
             t = LIN_TOLS.get(k, FILT_TOL)
             R.append(vals(w, t, t * full))
